@@ -10,9 +10,11 @@ import (
 	"errors"
 	"fmt"
 	"io"
+	"os"
 	"regexp"
 	"runtime"
 	"sort"
+	"strconv"
 	"strings"
 	"sync"
 	"time"
@@ -131,7 +133,15 @@ func rpcParked(gid string) bool {
 	prefix := "goroutine " + gid + " ["
 	for _, g := range strings.Split(string(buf[:n]), "\n\n") {
 		if strings.HasPrefix(g, prefix) {
-			return strings.HasPrefix(g[len(prefix):], "chan receive") && strings.Contains(g, "(*Server).Modify(")
+			if !strings.HasPrefix(g[len(prefix):], "chan receive") || !strings.Contains(g, "(*Server).Modify(") {
+				return false
+			}
+			// which receive: the handler waits for its receive loop at `<-errCh`; any other
+			// receive in Modify (waiting for the sender to finish, say) is the RPC ending
+			if txt, ok := frameLine(g, "(*Server).Modify("); ok {
+				return strings.Contains(txt, "<-errCh")
+			}
+			return true
 		}
 	}
 	return false
@@ -734,4 +744,44 @@ func (h *SrvH) SendLite(c int, m *spb.ModifyRequest) (*spb.ModifyResponse, bool)
 func hungOutcome() MsgOutcome {
 	wdFired.Add(1)
 	return MsgOutcome{Hang: true}
+}
+
+var srcLines sync.Map // file -> []string
+
+// frameLine returns the text of the source line at which the frame of fn in the goroutine dump g
+// stands (the line after the function's line in the dump is "\t<file>:<line> +0x…").
+func frameLine(g, fn string) (string, bool) {
+	ls := strings.Split(g, "\n")
+	for i, l := range ls {
+		if strings.Contains(l, fn) && i+1 < len(ls) {
+			loc := strings.TrimSpace(ls[i+1])
+			if j := strings.Index(loc, " "); j >= 0 {
+				loc = loc[:j]
+			}
+			k := strings.LastIndex(loc, ":")
+			if k < 0 {
+				return "", false
+			}
+			file := loc[:k]
+			n, err := strconv.Atoi(loc[k+1:])
+			if err != nil {
+				return "", false
+			}
+			v, ok := srcLines.Load(file)
+			if !ok {
+				b, err := os.ReadFile(file)
+				if err != nil {
+					return "", false
+				}
+				v = strings.Split(string(b), "\n")
+				srcLines.Store(file, v)
+			}
+			lines := v.([]string)
+			if n < 1 || n > len(lines) {
+				return "", false
+			}
+			return lines[n-1], true
+		}
+	}
+	return "", false
 }
